@@ -343,7 +343,7 @@ def segment_chooser(segments):
   return ch
 
 
-def landmark_chooser(sch_getter, plan, state_pred=None):
+def landmark_chooser(sch_getter, plan, state_pred=None, phase_cap=0):
   """plan: list of (thread, cond).  cond is one of
        ('done',)                     until the thread finishes
        ('line', func, lineno, nth)   until the thread is parked for the nth time (since the phase began)
@@ -352,15 +352,17 @@ def landmark_chooser(sch_getter, plan, state_pred=None):
                                      ('release' = just released the cache lock, 'op' = finished an operation)
        ('pred', name)                until state_pred(name) is true at a scheduling point of that thread
      After the plan: non-pre-emptive default."""
-  st = dict(i=0, count=0)
+  st = dict(i=0, count=0, steps=0)
 
   def ch(step, enabled, cur):
     sc = sch_getter()
     while st['i'] < len(plan):
       th, cond = plan[st['i']]
-      if th not in enabled:
+      if th not in enabled or (phase_cap and cond[0] != 'done' and st['steps'] > phase_cap):
+        # (a phase whose landmark never comes - e.g. an idle writer that never takes the lock - is abandoned)
         st['i'] += 1
         st['count'] = 0
+        st['steps'] = 0
         continue
       if cond[0] == 'line':
         if cur == th and sc.last_kind.get(th) == 'line' and sc.last_line.get(th) == (cond[1], cond[2]):
@@ -368,6 +370,7 @@ def landmark_chooser(sch_getter, plan, state_pred=None):
           if st['count'] >= cond[3]:
             st['i'] += 1
             st['count'] = 0
+            st['steps'] = 0
             continue
       elif cond[0] == 'kind':
         if cur == th and sc.last_kind.get(th) == cond[1]:
@@ -375,12 +378,15 @@ def landmark_chooser(sch_getter, plan, state_pred=None):
           if st['count'] >= cond[2]:
             st['i'] += 1
             st['count'] = 0
+            st['steps'] = 0
             continue
       elif cond[0] == 'pred':
         if state_pred(cond[1]) and sc.last_kind.get(th) in ('op', None, 'line'):
           st['i'] += 1
           st['count'] = 0
+          st['steps'] = 0
           continue
+      st['steps'] += 1
       return th
     if cur is not None:
       return cur
